@@ -767,6 +767,8 @@ fn cause(_fmt: &str, kind: &str) -> String {
     match kind.split('+').next().unwrap_or(kind) {
         // both mutators put an oversized declared length into a CBOR head
         "store:cbor-head" | "store:cbor-huge-len" => "store:cbor-declared-length".to_string(),
+        // both mutators put a large integer into a length/size field of a container element
+        "elem-header" | "length-field" => "container-length-field".to_string(),
         k => k.to_string(),
     }
 }
@@ -777,6 +779,15 @@ fn fmt_family(fmt: &str) -> &'static str {
     }
 }
 fn sig_prefix(ep: &str, hf: &str, fmt: &str, kind: &str) -> String {
+    // mp3 and flac share the ID3 parsing path (id3_helper): one family for signatures
+    let id3 = |f: &str| if f == "mp3" || f == "flac" { "id3".to_string() } else { f.to_string() };
+    let p = sig_prefix_raw(ep, hf, fmt, kind);
+    match p.split_once('|') {
+        Some((a, b)) => format!("{a}|{}", id3(b)),
+        None => p,
+    }
+}
+fn sig_prefix_raw(ep: &str, hf: &str, fmt: &str, kind: &str) -> String {
     if kind.starts_with("store:") {
         "store-parse|any".to_string()
     } else if ep == "Reader::with_stream" && fmt_family(fmt) != "nomagic" && fmt_family(fmt) != "svg" && fmt_family(fmt) != "c2pa" {
